@@ -811,7 +811,8 @@ def run(ctx):
     _base_dir()
     try:
         # >= 320 examples are needed for the runner to use all 16 worker processes
-        ctx.hyp(_strategy, check_case, max_examples=ctx.pick(336, 8000), shrink=not ctx.quick)
+        n = int(os.environ.get("VERIF_C46_EXAMPLES", "0") or 0) or ctx.pick(336, 6000)
+        ctx.hyp(_strategy, check_case, max_examples=n, shrink=not ctx.quick)
     finally:
         _cleanup_base()
     ctx.extra["batch_sizes"] = BATCH_SIZES
